@@ -42,11 +42,26 @@ func checkC07(w *Worker) {
 		max1, max2 = 3, 1 // (3+2 entries with three quantities does not finish within the half-hour deadline)
 	}
 	const today = "2021/01/27"
+	var exactSpecials []specialScenario
+	for _, sc := range specialScenarios() {
+		if sc.Exact && len(sc.Log) >= 2 {
+			exactSpecials = append(exactSpecials, sc)
+		}
+	}
+	special := false
 	body := func(large bool) func(x *Exec) {
+		special := special
 		return func(x *Exec) {
-			bi := x.Choose(len(c07Books), "input:book")
+			bi, book := 0, absBook(nil)
+			var scLog absLog
+			if special {
+				si := x.Choose(len(exactSpecials), "input:scenario")
+				bi, book, scLog = 100+si, exactSpecials[si].Book, exactSpecials[si].Log
+			} else {
+				bi = x.Choose(len(c07Books), "input:book")
+				book = c07Books[bi]
+			}
 			period := x.Choose(2, "input:period")
-			book := c07Books[bi]
 			genDay := func(date string, max int) absDay {
 				d := absDay{Date: date}
 				n := x.Choose(max+1, "input:entries")
@@ -60,7 +75,10 @@ func checkC07(w *Worker) {
 			var lg absLog
 			var d2 absDay
 			sameDate := false
-			if large {
+			if special {
+				lg = scLog
+				d2 = lg[1]
+			} else if large {
 				// 60 chronological days of 9..12 entries (wide days, repeats, every food, three quantities): reports far
 				// larger than the 4096-byte buffers
 				for d := 0; d < 60; d++ {
@@ -92,7 +110,7 @@ func checkC07(w *Worker) {
 				selDate = d2.Date
 				pflags = []string{"-b", selDate, "-e", selDate}
 			}
-			x.Case(fmt.Sprintf("%d|%d|%s", bi, period, lg), len(lg[0].Entries)+len(lg[1].Entries) >= 2)
+			x.Case(fmt.Sprintf("%d|%d|%s", bi, period, tailStr(lg.String(), 400)), len(lg[0].Entries)+len(lg[1].Entries) >= 2)
 			var obs []string
 			failed := false
 			run := func(args ...string) AppRun {
@@ -170,6 +188,9 @@ func checkC07(w *Worker) {
 						seenX[r.Name] = true
 						singles = append(singles, r.Name)
 					}
+				}
+				if len(singles) > 14 {
+					singles = singles[:14]
 				}
 			} else {
 				singles = append(singles, c07Foods[0], c07Foods[1])
@@ -261,6 +282,10 @@ func checkC07(w *Worker) {
 			fSum := map[string]*big.Rat{}
 			for _, line := range splitLines(fOut.Stdout) {
 				p := strings.Split(line, "\t")
+				if len(p) > 3 {
+					// a name with a tab inside: the first field is the date, the last one the amount
+					p = []string{p[0], strings.Join(p[1:len(p)-1], "\t"), p[len(p)-1]}
+				}
 				if len(p) != 3 {
 					viol("reg-single-food-unparseable", line)
 					return
@@ -427,4 +452,8 @@ func checkC07(w *Worker) {
 	}
 	w.Explore("relations", ExploreOpts{ShardDepth: 7}, body(false))
 	w.Explore("relations-large-log", ExploreOpts{ShardDepth: 2}, body(true))
+	// every special scenario whose amounts are exact (harness/specials.go)
+	special = true
+	w.Explore("relations-special-scenarios", ExploreOpts{ShardDepth: 2}, body(false))
+	special = false
 }
